@@ -11,10 +11,11 @@ import (
 
 // Module draws a module.
 func Module(rt *rapid.T, cfg Cfg) (*am.Module, map[string]int) {
-	// One module in twelve is large: enough blocks, instructions and globals for three-digit local IDs
-	// and two-digit global IDs, lists with many elements, and whatever else only shows at scale.
+	// One module in twelve is large: up to 48 blocks per function, blocks of up to 24 instructions,
+	// dozens of globals: three-digit local IDs, two-digit global IDs, and whatever else only shows at scale
+	// (fast paths, caches and cut-offs with thresholds like 16, 32 or 64).
 	if !cfg.NoScale && rapid.IntRange(0, 11).Draw(rt, "scale") == 0 {
-		cfg.MaxBlocks, cfg.MaxInsts, cfg.MaxGlobals = 3*cfg.MaxBlocks, 4*cfg.MaxInsts, 6*cfg.MaxGlobals
+		cfg.MaxBlocks, cfg.MaxInsts, cfg.MaxGlobals = 8*cfg.MaxBlocks, 3*cfg.MaxInsts, 6*cfg.MaxGlobals
 		if cfg.UnnamedBias < 8 {
 			cfg.UnnamedBias = 8
 		}
